@@ -35,6 +35,11 @@ CHECKS = {
         text="Every selector (roundrobin, random, modhash, consistent hash Ketama/default; weighted and not) runs seeded Refresh/Add/Remove/Select histories against an ordered-member model (non-member, wrong error, panic = violation); round-robin rotation and the weighted-cycle formula are counted exactly over full cycles, also with 4..16 concurrent selecting goroutines; concurrent histories with updaters are recorded at the call boundary and checked with porcupine against the membership model; race reports with an accessing frame in tars/selector are violations; a crash or CPU-burning hang of the child is attributed to the last announced case.",
         note="Weighted-cycle formula judged for all-positive static weights only. Members are removed by their stored endpoint value (as the endpoint manager does). Weights for weighted consistent hashing are capped at 2000 (ring size is linear in the weight by design). Manager-level selection is covered under C14/C15.",
         design="DESIGN.md §4 C13"),
+    "C14": dict(
+        technique="runtime monitor: cross-instance agreement over different histories, independent reference ring / list-slot oracle, before/after disruption comparison on real selector instances",
+        text="Target endpoint sets are reached through 3..6 different Refresh/Add/Remove histories on separate real selector instances; all instances must agree on every probed code (every ring point and its +-1 neighbours, 0, 2^32-1, random) and with an independently computed Ketama/default ring where that is unambiguous; removing/adding an endpoint may move only its own codes; mod-hash must map h to slot h mod N of the installed list and, weighted, to a cycle with the formula's counts and period identical across histories. Sets around hosts with colliding virtual points (birthday search in a fixed 3000-host universe) are probed and reported per colliding pair.",
+        note="The 2^32 code space is sampled at the points where the mapping can change. End-to-end routing of a call carrying a hash code is added with the RPC world (see DESIGN.md). 12 colliding host pairs are recorded as open known findings.",
+        design="DESIGN.md §4 C14"),
 }
 
 NOT_BUILT_REASON = "check not built yet in this session (runtime-monitoring design exists in DESIGN.md §4; machinery in progress) — not claimed until its monitor runs silent on the unchanged tree"
